@@ -51,8 +51,12 @@ func (msg Message) generateUnmarshalBebop(w *iohelp.ErrorWriter, settings Genera
 	writeLine(w, "\tif len(buf) < 4 {")
 	writeLine(w, "\t\treturn io.ErrUnexpectedEOF")
 	writeLine(w, "\t}")
-	writeLine(w, "\t_ = iohelp.ReadUint32Bytes(buf[at:])")
+	writeLine(w, "\tbodyLen := iohelp.ReadUint32Bytes(buf[at:])")
 	writeLine(w, "\tbuf = buf[4:]")
+	// the whole body must be there, including fields this version does not know
+	writeLine(w, "\tif uint64(len(buf)) < uint64(bodyLen) {")
+	writeLine(w, "\t\treturn io.ErrUnexpectedEOF")
+	writeLine(w, "\t}")
 	writeLine(w, "\tfor {")
 	writeLine(w, "\t\tif len(buf) <= at {")
 	writeLine(w, "\t\t\treturn io.ErrUnexpectedEOF")
